@@ -57,7 +57,8 @@ def main(tier, seed):
     chk.set('bounds', {
         'columns': '1..3', 'column_types': ['free', 'cont[0,1]', 'binary', 'int[-2,5]', 'int[0,0]', 'cont[0,0]'],
         'hessian_supports': 'all 2^(n*n) subsets (quick, n=3: 60 supports = all with <=2 entries + 14 structured)',
-        'hessian_formats': ['triangular', 'square'], 'duplicate_entry': 'first stored entry doubled (text NL; for n=3 with the square format only)',
+        'hessian_formats': ['triangular', 'square'], 'duplicate_entry': 'first stored entry doubled (text NL; n<=2: every support x both formats; n=3: square format, '
+                           'supports with <=3 entries + 14 structured ones; quick: <=2 entries)',
         'core_nl_format': 'text' if tier == 'quick' else 'text for every core model; binary and text+comments for every core model '
                           'with n<=2 and, for n=3, on the 60 reduced supports',
         'rows': '0..2, every 0/nonzero pattern', 'row_kinds': ['free', '<=', '>=', 'range', '=='],
